@@ -21,6 +21,7 @@ import unified_planning as up
 import unified_planning.engines as engines
 from unified_planning.engines.mixins.compiler import CompilationKind, CompilerMixin
 from unified_planning.engines.results import CompilerResult
+from unified_planning.engines.compilers.utils import rewritten_problem_kind
 from unified_planning.model import (
     Problem,
     ProblemKind,
@@ -151,13 +152,31 @@ class UsertypeFluentsRemover(engines.engine.Engine, CompilerMixin):
     def resulting_problem_kind(
         problem_kind: ProblemKind, compilation_kind: Optional[CompilationKind] = None
     ) -> ProblemKind:
-        new_kind = problem_kind.clone()
+        new_kind = rewritten_problem_kind(problem_kind)
         if new_kind.has_object_fluents():
             new_kind.unset_fluents_type("OBJECT_FLUENTS")
             new_kind.set_effects_kind("CONDITIONAL_EFFECTS")
             new_kind.set_conditions_kind("EXISTENTIAL_CONDITIONS")
             new_kind.set_conditions_kind("EQUALITIES")
             new_kind.set_conditions_kind("NEGATIVE_CONDITIONS")
+            # an effect on a numeric fluent that reads an object fluent becomes conditional
+            if new_kind.has_simple_numeric_planning():
+                new_kind.set_problem_type("GENERAL_NUMERIC_PLANNING")
+        if (
+            new_kind.has_fluents_in_boolean_assignments()
+            or new_kind.has_static_fluents_in_boolean_assignments()
+            or new_kind.has_interpreted_functions_in_boolean_assignments()
+        ):
+            # `b := e` with a non-constant `e` becomes `if e then b := true` and `if not e then b := false`:
+            # the operators of the assigned expression become operators of conditions
+            new_kind.set_effects_kind("CONDITIONAL_EFFECTS")
+            new_kind.set_conditions_kind("NEGATIVE_CONDITIONS")
+            new_kind.set_conditions_kind("DISJUNCTIVE_CONDITIONS")
+            new_kind.set_conditions_kind("EQUALITIES")
+            new_kind.set_conditions_kind("EXISTENTIAL_CONDITIONS")
+            new_kind.set_conditions_kind("UNIVERSAL_CONDITIONS")
+            if new_kind.has_interpreted_functions_in_boolean_assignments():
+                new_kind.set_conditions_kind("INTERPRETED_FUNCTIONS_IN_CONDITIONS")
         return new_kind
 
     def _compile(
